@@ -15,7 +15,7 @@ ASSUMPTIONS = [
 
 
 def run():
-  return pairrun.run_pairs('C04', [('lv.gen_meta', 'c04_pairs', 32, 256)], FUNCTIONS, ASSUMPTIONS,
+  return pairrun.run_pairs('C04', [('lv.gen_meta', 'c04_pairs', 32, 2000)], FUNCTIONS, ASSUMPTIONS,
                            'DESIGN.md §3 C04',
                            rejected_is_violation=lambda r: r.get('rejected_side') == 'a')
 
